@@ -7,6 +7,7 @@ equals None), first match by right position; aggregate = dict-of-lists grouping
 of item tags with a tracer summary. Left/right items carry `_ltag_`/`_rtag_`.
 """
 
+import collections
 import copy
 import functools
 
@@ -64,7 +65,11 @@ def generate(rng, tier):
     for it in right:
         if rng.random() < 0.7: it["rv"] = rng.choice([10, 20, None])
         if rng.random() < 0.3: it["rw"] = rng.choice(["m", [1]])
-    return {"op": op, "left": left, "right": right, "by": by}
+    case = {"op": op, "left": left, "right": right, "by": by}
+    if rng.random() < 0.2:
+        # lists holding the same dict OBJECT more than once (data * 2, data + data)
+        case["alias"] = rng.choice(["left", "right", "both"])
+    return case
 
 def execute(case):
     import dataiter as di
@@ -127,6 +132,10 @@ def execute(case):
         res.count("aggregates-compared")
         return res.dict()
     left, right, by = case["left"], case["right"], case["by"]
+    alias = case.get("alias")
+    if alias in ("left", "both"): left = left + left
+    if alias in ("right", "both"): right = right + right
+    if alias: res.cls("aliased-items")
     by1 = [b if isinstance(b, str) else b[0] for b in by]
     by2 = [b if isinstance(b, str) else b[1] for b in by]
     renamed = by1 != by2
@@ -154,8 +163,10 @@ def execute(case):
         return out
     try:
         with capture_stdout():
-            L = di.ListOfDicts(copy.deepcopy(left))
-            R = di.ListOfDicts(copy.deepcopy(right))
+            L = di.ListOfDicts(copy.deepcopy(case["left"]))
+            R = di.ListOfDicts(copy.deepcopy(case["right"]))
+            if alias in ("left", "both"): L = L * 2
+            if alias in ("right", "both"): R = R + R
             out = getattr(L, op)(R, *by)
     except Exception as e:
         feat = ("renamed" if renamed else "same-name") + ("+empty" if not left or not right else "")
@@ -185,10 +196,12 @@ def execute(case):
     else:
         lt = [x.get("_ltag_") for x in got]
         rt = [x.get("_rtag_") for x in got]
-        if set(range(len(left))) - set(lt):
-            res.violate("full_join:left-item-lost", f"left tags {sorted(set(range(len(left))) - set(lt))} absent; got {canon.short(got, 500)}; {ctx}")
-        if set(range(len(right))) - set(rt):
-            res.violate("full_join:right-item-lost", f"right tags {sorted(set(range(len(right))) - set(rt))} absent; got {canon.short(got, 500)}; {ctx}")
+        lc, rc = collections.Counter(x["_ltag_"] for x in left), collections.Counter(x["_rtag_"] for x in right)
+        lg, rg = collections.Counter(lt), collections.Counter(rt)
+        if any(lg[t] < c for t, c in lc.items()):
+            res.violate("full_join:left-item-lost", f"left tags {sorted(t for t, c in lc.items() if lg[t] < c)} absent (or fewer than in the left list); got {canon.short(got, 500)}; {ctx}")
+        if any(rg[t] < c for t, c in rc.items()):
+            res.violate("full_join:right-item-lost", f"right tags {sorted(t for t, c in rc.items() if rg[t] < c)} absent (or fewer than in the right list); got {canon.short(got, 500)}; {ctx}")
         for x in got:
             a, b = x.get("_ltag_"), x.get("_rtag_")
             if a is not None and b is not None and isinstance(a, int) and isinstance(b, int) and a < len(left) and b < len(right):
